@@ -200,7 +200,7 @@ def corpus():
 
 
 def cases(rng, tier):
-    n_hist = 260 if tier == "quick" else 3000
+    n_hist = 200 if tier == "quick" else 2000
     for _ in range(n_hist):
         g = daglib.gen_dag(rng, rng.randrange(2, 13), p_merge=0.45)
         trees = gen_trees(rng, g, nfiles=rng.choice([1, 2, 4, 4]))
